@@ -1,3 +1,4 @@
+import GohbaseVerif.Gen.Exits
 import GohbaseVerif.Lemmas.ConnCache
 import GohbaseVerif.Gen.Selects
 /-!
@@ -194,5 +195,18 @@ server-class *exception answer* (probe or call answered with e.g. RegionServerSt
 the socket stays open.  Witness in the model: -/
 example : (run true init [.spawnEstablish, .estPut 5 1, .dial 0, .clientDown 0, .closeBegin, .closeAllRun]).map
     (fun s => s.conns.map fun c => (c.down, c.closed)) = some [(true, false)] := by decide
+
+end GV.ConnCache
+
+namespace GV.ConnCache
+open GV.Gen
+
+/-- Regenerated from caches.go / rpc.go: the connection cache's `put` tests the `closed` flag first,
+under the lock, and returns nil; `closeAll` sets it inside its critical section; `establishRegion`
+returns when `put` refuses. These are the three source facts `no_new_connection_after_close` rests
+on. -/
+theorem closed_flag_in_source :
+    Exits.putRefusesWhenClosedUnderLock = true ∧ Exits.closeAllSetsClosedUnderLock = true ∧
+    Exits.establishReturnsWhenPutRefuses = true ∧ Exits.shapeOk = true := by decide
 
 end GV.ConnCache
